@@ -41,17 +41,20 @@ def documented_statistics(root):
     torch = _T()
     from nflows.transforms.normalization import ActNorm, BatchNorm
 
-    allowed, actnorm = set(), []
+    norm_types = (BatchNorm, ActNorm, torch.nn.modules.batchnorm._BatchNorm)
+    prefixes, frozen, actnorm = [], set(), []
     for name, mod in root.named_modules():
         pre = name + "." if name else ""
-        if isinstance(mod, (BatchNorm, ActNorm, torch.nn.BatchNorm1d, torch.nn.BatchNorm2d)):
-            # the statistics of a normalisation layer are its own *buffers* (running mean/variance, batch counters,
-            # initialisation flag); its trainable parameters are not statistics - except ActNorm's, which its
-            # documented data-dependent initialisation sets once (handled by the caller through `actnorm`)
-            allowed.update(pre + b for b, _ in mod.named_buffers(recurse=False))
+        if isinstance(mod, norm_types):
+            # everything a normalisation layer keeps in the state dict under its own prefix counts as its statistics
+            # (running mean/variance, counters, flags, extra state, however the layer organises them) - except its
+            # trainable parameters, which are not statistics; ActNorm's are set once by its documented data-dependent
+            # initialisation (handled by the caller through `actnorm`)
+            prefixes.append(pre)
+            frozen.update(pre + n for n, _ in mod.named_parameters(recurse=True))
         if isinstance(mod, ActNorm):
             actnorm.append((pre, mod))
-    return allowed, actnorm
+    return (tuple(prefixes), frozen), actnorm
 
 
 class Slot:
@@ -428,12 +431,13 @@ class C13World(World):
                 raise Violation("model_state_changed_in_eval", "%s%s changed %s" % (
                     fn, " (interrupted)" if fired else (" (raised %s)" % type(err).__name__ if err else ""), changed[:6]))
         else:
-            allowed = set(self.allowed)
+            prefixes, frozen = self.allowed
+            frozen = set(frozen)
             for (pre, mod), was in zip(self.actnorms, init_before):
                 if not was:
                     # the documented data-dependent initialisation sets ActNorm's own parameters once
-                    allowed.update(pre + n for n, _ in mod.named_parameters(recurse=False))
-            extra = [kk for kk in changed if kk not in allowed]
+                    frozen -= {pre + n for n, _ in mod.named_parameters(recurse=True)}
+            extra = [kk for kk in changed if kk in frozen or not any(kk.startswith(pp) for pp in prefixes)]
             if extra:
                 raise Violation("undocumented_state_changed_in_training", "%s changed %s" % (fn, extra[:6]))
             if changed:
